@@ -214,6 +214,14 @@ def rule_one_clock(ctx, tab, rule="R3"):
         r2 = terms.subst(r.ret, {S: mark})
         if pse.contains(r2, TT.TIME):
             leaks.append("result " + show(r.ret))
+        # cycle number, phase and ratio: every division / remainder by the cycle duration D is taken of the time since the
+        # delay, of its remainder, or of D itself (the held end of a pass)
+        D = tab["D"]
+        allowed = (S, ("bin", "Rem", S, D, "f32"), ("bin", "Rem", S, D), D)
+        for x in pse.subterms((r.ret,) + tuple(c[0] for c in r.path.conds)):
+            if isinstance(x, tuple) and x and x[0] == "bin" and x[1] in ("Div", "Rem") and len(x) > 3 and x[3] == D \
+                    and x[2] not in allowed:
+                leaks.append("%s of %s" % (x[1], show(x[2])))
         ctx.ob(rule, "one-clock/" + r.label, not leaks,
                "cycle number, phase and end test must all be computed from time - delay; the raw time is used in %s"
                % leaks[:3], tab["body"]["span"], trace_of(r.path), what="raw-time-used")
